@@ -80,7 +80,7 @@ static Json::Value gen() {
     Json::Value tick(Json::objectValue);
     int kind = W({55, 35, 10});
     int adv = kind == 0 ? R(1, 5) : kind == 1 ? R(0, 20) : R(20, 60);
-    tick["adv_ms"] = adv * 1000;
+    tick["adv_ms"] = adv * 1000 + subsecMs();
     tick["ops"] = Json::Value(Json::arrayValue);
     ticks.append(tick);
   }
